@@ -17,6 +17,9 @@ mod eng_convert;
 mod eng_outstation;
 mod mon_outstation;
 mod mon_outstation_db;
+mod eng_master;
+mod mon_master;
+mod gen_master;
 mod gen_outstation;
 
 use std::io::Write;
@@ -42,6 +45,7 @@ fn main() {
                 "db" => eng_db::gen(thorough, seed, &mut out),
                 "convert" => eng_convert::gen(thorough, seed, &mut out),
                 "outstation" => gen_outstation::gen(thorough, seed, &mut out, gen_outstation::GenCfg { with_db: false }),
+                "master" => gen_master::gen(thorough, seed, &mut out),
                 "outstationdb" => gen_outstation::gen(thorough, seed, &mut out, gen_outstation::GenCfg { with_db: true }),
                 _ => {
                     eprintln!("unknown engine {engine}");
@@ -63,6 +67,7 @@ fn main() {
                 "db" => eng_db::run(&ops, &mut out, &mut mon),
                 "convert" => eng_convert::run(&ops, &mut out, &mut mon),
                 "outstation" | "outstationdb" => eng_outstation::run(&ops, &mut out, &mut mon),
+                "master" => eng_master::run(&ops, &mut out, &mut mon),
                 _ => {
                     eprintln!("unknown engine {engine}");
                     std::process::exit(2)
